@@ -111,7 +111,9 @@ pub fn write_then_probe<S: Src>(s: &mut S, g: usize) {
 pub fn word_long_composition<S: Src>(s: &mut S, g: usize) {
     let w = s.u16();
     let l = s.u32();
-    let probe = s.u32();
+    // DRAM group: a symbolic-index read of the 2 MiB array after a write exhausts CBMC's memory
+    // (measured, also with --arrays-uf-always); the aliasing probe is then a fixed address in another region
+    let probe = if g == 1 { let _ = s.u32(); 0xffcf20 } else { s.u32() };
     let mut ok_w = true;
     let mut ok_l = true;
     let mut ok_err = true;
@@ -210,4 +212,88 @@ pub fn word_long_composition<S: Src>(s: &mut S, g: usize) {
     witness!(when: g != 5, reached_ok && w != 0 && l != 0, "composition checked with non-zero data");
     witness!(reached_err, "straddling / unmapped access reached");
     verdict!("word" => ok_w, "long" => ok_l, "error" => ok_err, "no_alias" => ok_alias);
+}
+
+/// DRAM variant of `write_then_probe`: CBMC cannot encode a symbolic-index read of the 2 MiB DRAM array
+/// once it has been written (out of memory at 30 GB, with and without --arrays-uf-always), so after the
+/// same two rounds of symbolic-valued writes the probe is an ENUMERATED set of concrete addresses: every
+/// group address, its neighbours +-1/+-2, and the addresses with the same offset in the other regions.
+pub fn write_then_probe_concrete<S: Src>(s: &mut S, g: usize) {
+    let mut v1 = [0u8; GROUP_LEN];
+    let mut v2 = [0u8; GROUP_LEN];
+    let mut i = 0;
+    while i < GROUP_LEN {
+        v1[i] = s.u8();
+        v2[i] = s.u8();
+        i += 1;
+    }
+    let second_round_mask = s.u8();
+    let mut cpu = Cpu::new();
+    let mut ok_outcome = true;
+    let mut last = [0u8; GROUP_LEN];
+    i = 0;
+    while i < GROUP_LEN {
+        let (a, plain) = GROUPS[g][i];
+        if cpu.bus.write(a, v1[i]).is_ok() != plain {
+            ok_outcome = false;
+        }
+        if plain {
+            last[i] = v1[i];
+        }
+        i += 1;
+    }
+    i = 0;
+    while i < GROUP_LEN {
+        let (a, plain) = GROUPS[g][i];
+        if (second_round_mask >> i) & 1 == 1 {
+            if cpu.bus.write(a, v2[i]).is_ok() != plain {
+                ok_outcome = false;
+            }
+            if plain {
+                last[i] = v2[i];
+            }
+        }
+        i += 1;
+    }
+    let mut ok_class = true;
+    let mut ok_value = true;
+    let mut hits = 0;
+    const DELTAS: [i32; 5] = [0, 1, -1, 2, -2];
+    const IMAGES: [u32; 4] = [0, 0xffbf20u32.wrapping_sub(0x400000), 0xfee000u32.wrapping_sub(0x400000), 0x1000000];
+    i = 0;
+    while i < GROUP_LEN {
+        let mut d = 0;
+        while d < 5 {
+            let mut m = 0;
+            while m < 4 {
+                let probe = GROUPS[g][i].0.wrapping_add(DELTAS[d] as u32).wrapping_add(if d == 0 { IMAGES[m] } else { 0 });
+                if d == 0 || m == 0 {
+                    let r = cpu.bus.read(probe);
+                    let mut expect = 0u8;
+                    let mut k = 0;
+                    while k < GROUP_LEN {
+                        if GROUPS[g][k].0 == probe && GROUPS[g][k].1 {
+                            expect = last[k];
+                            hits += 1;
+                        }
+                        k += 1;
+                    }
+                    if r.is_ok() != mem::accessible(probe) {
+                        ok_class = false;
+                    }
+                    if let Ok(v) = r {
+                        if v != expect {
+                            ok_value = false;
+                        }
+                    }
+                }
+                m += 1;
+            }
+            d += 1;
+        }
+        i += 1;
+    }
+    witness!(hits > 0 && last[2] != 0 && last[5] != 0, "written locations probed");
+    std::mem::forget(cpu);
+    verdict!("write_outcome" => ok_outcome, "probe_classification" => ok_class, "probe_value" => ok_value);
 }
